@@ -11,10 +11,46 @@ from .tablerules import tables_of, PLACEHOLDER
 
 
 # ------------------------------------------------------------------- R26
-def _subst_hm(test, h, m):
+def _hm_roles(fnode):
+    """Locals of a function that hold the (hours, minutes) pair of a zone
+    offset, or one of its components: {name: "pair" | "h" | "m"} - read off
+    the bindings (`x = get_local_time_zone()`, `a, b = x`)."""
+    roles = {}
+    if fnode is None:
+        return roles
+    for _ in range(3):
+        for n in walk_no_nested(fnode):
+            if not (isinstance(n, ast.Assign) and len(n.targets) == 1):
+                continue
+            t, v = n.targets[0], n.value
+            is_pair = (isinstance(v, ast.Call) and "time_zone" in U(
+                v.func) and not v.args) or (
+                    isinstance(v, ast.Name) and roles.get(v.id) == "pair")
+            if not is_pair:
+                continue
+            if isinstance(t, ast.Name):
+                roles[t.id] = "pair"
+            elif isinstance(t, ast.Tuple) and len(t.elts) == 2 and all(
+                    isinstance(x, ast.Name) for x in t.elts):
+                roles[t.elts[0].id] = "h"
+                roles[t.elts[1].id] = "m"
+    return roles
+
+
+def _subst_hm(test, h, m, fnode=None):
     """Replace hour-ish / minute-ish operands of a condition by constants."""
+    roles = _hm_roles(fnode)
+
     class Sub(ast.NodeTransformer):
         def _name(self, node):
+            if isinstance(node, ast.Name) and node.id in roles:
+                r = roles[node.id]
+                if r == "pair":
+                    return ast.copy_location(ast.Tuple(
+                        elts=[ast.Constant(value=h), ast.Constant(value=m)],
+                        ctx=ast.Load()), node)
+                return ast.copy_location(ast.Constant(
+                    value=h if r == "h" else m), node)
             txt = U(node).lower()
             last = txt.split(".")[-1]
             if "minute" in last:
@@ -103,8 +139,8 @@ def r26_sign_prop(ctx):
                 if h == 0 and m == 0:
                     continue
                 try:
-                    v = bool(ctx.folder.fold(_subst_hm(test, h, m), f.module,
-                                             f.cls, {}))
+                    v = bool(ctx.folder.fold(_subst_hm(test, h, m, f.node),
+                                             f.module, f.cls, {}))
                 except NotConst as exc:
                     rep.error("R26", "%s: sign test %s not evaluable: %s" % (
                         f.loc(node), U(test), exc))
@@ -246,17 +282,52 @@ def r26_sign_prop(ctx):
     oke = False
     from ..flow import sign_by_prefix
     for n in walk_no_nested(f.node):
-        if isinstance(n, ast.For) and "items()" in U(n.iter):
-            for st in ast.walk(n):
-                if isinstance(st, ast.Assign) and isinstance(
-                        st.targets[0], ast.Subscript) and isinstance(
-                            st.value, ast.BinOp) and isinstance(
-                                st.value.op, ast.Mult) and (
-                        sign_by_prefix(f.node, st.value.left) or
-                        sign_by_prefix(f.node, st.value.right)):
-                    # not under a key-specific condition
-                    cond = [a for a in _ifs_between(st, n)]
-                    oke = not cond
+        if isinstance(n, ast.For) and "items()" in U(n.iter) and \
+                isinstance(n.target, ast.Tuple) and len(n.target.elts) == 2:
+            # path by path through the loop body: whatever is stored under
+            # the key is a product with the sign factor; nothing is stored
+            # only for a group that took no part in the match
+            from ..dtable import explore as _explore
+            kname, vname = U(n.target.elts[0]), U(n.target.elts[1])
+            try:
+                paths_ = _explore(n.body)
+            except AnalysisError:
+                paths_ = []
+            good, n_st = bool(paths_), 0
+            for p_ in paths_:
+                st_ = [v for k, v in p_.env.items()
+                       if k.startswith("@") and k.endswith("[%s]" % kname)]
+                if not st_:
+                    if p_.decisions.get("%s is None" % vname) is not True:
+                        good = False
+                    continue
+                n_st += 1
+                for v in st_:
+                    if not (isinstance(v, ast.BinOp) and isinstance(
+                            v.op, ast.Mult)):
+                        good = False
+                        continue
+                    if sign_by_prefix(f.node, v.left) or sign_by_prefix(
+                            f.node, v.right):
+                        continue
+                    # the factor was a conditional expression the path has
+                    # decided: -1 exactly where the '-' prefix test held
+                    from ..flow import prefix_test as _pt
+                    consts = [x for x in (v.left, v.right) if U(x).replace(
+                        "(", "").replace(")", "") in ("-1", "1", "+1")]
+                    held = None
+                    for atom, val in p_.decisions.items():
+                        try:
+                            a_ = ast.parse(atom, mode="eval").body
+                        except SyntaxError:
+                            continue
+                        if _pt(f.node, a_, "-"):
+                            held = val
+                    if not consts or held is None or (
+                            U(consts[0]).replace("(", "").replace(
+                                ")", "") == "-1") != held:
+                        good = False
+            oke = good and n_st > 0
         elif isinstance(n, ast.DictComp) and any(
                 "items()" in U(g.iter) for g in n.generators):
             # {unit: <value> for unit, text in groups.items() ...}: every
@@ -1109,13 +1180,71 @@ def r29_strf_table(ctx):
               "_translate_strftime_token does not start by refusing tokens "
               "outside the table with a ValueError-derived error: "
               "unsupported directives are mis-rendered", P)
+    # ... and the refusal sees every directive: the splitter isolates
+    # *every* %-letter as a token of its own (not only the supported ones),
+    # and the token test recognises every one of them as a directive
+    import string as _string
+    from ..fold import Regex as _Regex
+    T_ = ctx.folder
+    split_rx = T_.need_module_const("parser_spec",
+                                    "REC_SPLIT_STRFTIME_DIRECTIVE")
+    tok_rx = T_.need_module_const("parser_spec",
+                                  "REC_STRFTIME_DIRECTIVE_TOKEN")
+    if isinstance(split_rx, _Regex) and isinstance(tok_rx, _Regex):
+        letters = _string.ascii_letters
+        try:
+            c_split = re.compile(split_rx.pattern, split_rx.flags)
+            c_tok = re.compile(tok_rx.pattern, tok_rx.flags)
+        except re.error as exc:
+            raise AnalysisError("strftime directive regexes do not compile: "
+                                "%s" % exc)
+        not_split = [c for c in letters
+                     if c_split.split("a%" + c + "b") != ["a", "%" + c, "b"]]
+        not_tok = [c for c in letters if not c_tok.search("%" + c)]
+        rep.check(not not_split and not not_tok, rule,
+                  ctx.mkey("parser_spec", "strftime-split:every-directive"),
+                  "parser_spec.py",
+                  "the format splitter isolates every %<letter> directive "
+                  "and the token test recognises each, so the table lookup "
+                  "(and its refusal) sees them all",
+                  "the format splitter leaves %s inside literal text / the "
+                  "token test misses %s: those directives never reach the "
+                  "table lookup, so they are not refused but copied or fed "
+                  "to %%-formatting" % (
+                      ["%" + c for c in not_split][:8],
+                      ["%" + c for c in not_tok][:8]), P)
+    else:
+        rep.undecided(rule, ctx.mkey("parser_spec",
+                                     "strftime-split:every-directive"),
+                      "parser_spec.py", "the directive splitter / token "
+                      "test are not compiled regular expressions this rule "
+                      "can fold", P)
     # both directions split formats with the same regex
     fs = ctx.func("dumpers.TimePointDumper.strftime")
     fp = ctx.func("parsers.TimePointParser.strptime")
-    s1 = {U(n.func) for n in walk_no_nested(fs.node) if isinstance(n, ast.Call)
-          and "REC_" in U(n.func)}
-    s2 = {U(n.func) for n in walk_no_nested(fp.node) if isinstance(n, ast.Call)
-          and "REC_" in U(n.func)}
+    def rec_calls(f0):
+        """REC_* regex calls made by f0 or by the same-module helpers it
+        calls or hands on (map(helper, ...)), transitively."""
+        out, todo, seen = set(), [f0], set()
+        while todo:
+            g = todo.pop()
+            if g.qual in seen:
+                continue
+            seen.add(g.qual)
+            for n in walk_no_nested(g.node):
+                if isinstance(n, ast.Call) and "REC_" in U(n.func):
+                    out.add(U(n.func))
+                ref = None
+                if isinstance(n, ast.Name) and isinstance(n.ctx, ast.Load):
+                    ref = g.module.functions.get(n.id)
+                elif isinstance(n, ast.Attribute) and isinstance(
+                        n.value, ast.Name) and n.value.id == g.self_name \
+                        and g.cls is not None:
+                    ref = g.cls.methods.get(n.attr)
+                if ref is not None and ref.name.startswith("_"):
+                    todo.append(ref)
+        return out
+    s1, s2 = rec_calls(fs), rec_calls(fp)
     rep.check(s1 == s2 and len(s1) == 2, rule,
               "package:strftime-split", "-",
               "strftime and strptime split formats with the same directive "
